@@ -92,21 +92,51 @@ func c17r1(c *Check) {
 	cfgBody := &PathCfg{
 		BackEdgeMax: 1,
 		Inline:      sameRecv,
-		Classify: func(in ssa.Instruction) []string {
+		ClassifyV: func(in ssa.Instruction, resolve func(ssa.Value) ssa.Value) []string {
 			if isCallNamed(in, "(*net/http.Client).Do") {
 				return []string{"do"}
 			}
+			// the reader behind a body value: a fresh bytes/strings reader, possibly wrapped
+			readerOf := func(v ssa.Value) string {
+				for k := 0; k < 8; k++ {
+					v = resolve(v)
+					switch x := v.(type) {
+					case *ssa.MakeInterface:
+						v = x.X
+						continue
+					case *ssa.ChangeInterface:
+						v = x.X
+						continue
+					case *ssa.Call:
+						switch calleeName(x.Common()) {
+						case "io/ioutil.NopCloser", "io.NopCloser":
+							v = x.Call.Args[0]
+							continue
+						case "bytes.NewReader", "strings.NewReader", "bytes.NewBuffer", "bytes.NewBufferString":
+							return x.Name() + "@" + x.Parent().Name()
+						}
+					}
+					break
+				}
+				return "?"
+			}
 			if cc := callCommon(in); cc != nil {
 				switch calleeName(cc) {
-				case "net/http.NewRequest", "net/http.NewRequestWithContext":
-					return []string{"body:set"}
+				case "net/http.NewRequest":
+					return []string{"body:set:" + readerOf(cc.Args[2])}
+				case "net/http.NewRequestWithContext":
+					return []string{"body:set:" + readerOf(cc.Args[3])}
+				case "bytes.NewReader", "strings.NewReader", "bytes.NewBuffer", "bytes.NewBufferString":
+					if v, ok := in.(ssa.Value); ok {
+						return []string{"reader:new:" + v.Name() + "@" + in.Parent().Name()}
+					}
 				}
 			}
 			if st, ok := in.(*ssa.Store); ok {
 				if fa, ok := st.Addr.(*ssa.FieldAddr); ok {
 					f := fieldOfAddr(fa)
 					if f.Name() == "Body" && f.Pkg() != nil && f.Pkg().Path() == "net/http" {
-						return []string{"body:set"}
+						return []string{"body:set:" + readerOf(st.Val)}
 					}
 				}
 			}
@@ -138,9 +168,14 @@ func c17r1(c *Check) {
 			}
 			if lastDo >= 0 {
 				nRetry++
+				// armed: the body is set between the two attempts to a reader that was itself created between them
 				armed := false
+				fresh := map[string]bool{}
 				for _, e2 := range pa.Events[lastDo+1 : j] {
-					if e2.Class == "body:set" {
+					if strings.HasPrefix(e2.Class, "reader:new:") {
+						fresh[strings.TrimPrefix(e2.Class, "reader:new:")] = true
+					}
+					if strings.HasPrefix(e2.Class, "body:set:") && fresh[strings.TrimPrefix(e2.Class, "body:set:")] {
 						armed = true
 					}
 				}
